@@ -111,18 +111,20 @@ def convolve1d(f, weights, axis, mode='reflect', cval=0., out=None):
     if f.flags.contiguous and len(weights) < f.shape[axis]:
         weights = weights.astype(f.dtype, copy=False)
         weights = np.ascontiguousarray(weights, dtype=np.double)
+        out = _get_output(f, out, 'convolve1d')
         indices = [a for a in range(f.ndim) if a != axis] + [axis]
         rindices = [indices.index(a) for a in range(f.ndim)]
-        oshape = f.shape
         f = f.transpose(indices)
         tshape = f.shape
         f = f.reshape((-1, f.shape[-1]))
 
-        out = _get_output(f, out, 'convolve1d')
-        _convolve.convolve1d(f, weights, out, mode2int[mode])
-        out = out.reshape(tshape)
-        out = out.transpose(rindices)
-        out = out.reshape(oshape)
+        if axis == len(tshape) - 1:
+            # no transposition: the rows of `out` are the rows of the 2-D view
+            _convolve.convolve1d(f, weights, out.reshape(f.shape), mode2int[mode])
+        else:
+            tmp = np.empty(f.shape, f.dtype)
+            _convolve.convolve1d(f, weights, tmp, mode2int[mode])
+            out[...] = tmp.reshape(tshape).transpose(rindices)
         return out
     else:
         index = [None] * f.ndim
